@@ -22,7 +22,13 @@ CLAIMS = {
              "edge, trapezoids up to +-32767.99) are run (a) through read/write accessors: TLC checks every accessed "
              "byte interval lies in the image's storage and that each raised cover flag is true at full resolution, "
              "(b) without accessors under each implementation chain with every image flush against 1 MiB PROT_NONE "
-             "regions (alternately at its upper and lower end).",
+             "regions (alternately at its upper and lower end). Images of 32766 ... 65537 (thorough: ... 131072) pixels "
+             "in one dimension - either side of every limit of the 16.16 representation - are requested as source "
+             "(once per fast-path table entry that takes a transformed source: its operator, formats, filter, repeat "
+             "and transform class), as mask and as destination, near both ends and across the representable range: a "
+             "pixel index that is off by the wrapped width or by 65536 leaves the one-row storage. BoundsMC also shows "
+             "on a small word why the refusal of such images must not depend on the repeat mode (end-relative "
+             "addressing of the scaled main loops; negative configuration rejected).",
         ref="5 C04"),
 }
 
@@ -142,17 +148,18 @@ def cover_boundary(rng):
     return out
 
 
-def tight_table_requests(rng, wd):
-    """One group of requests per fast-path table entry of the running library (every implementation, every chain):
-       operator and formats of the entry, solid source / solid mask where the entry asks for one (1x1 repeating
-       images), images whose rows are contiguous and end exactly at the end of their storage (widths for which
-       width x bpp is a whole number of words), the request covering the image up to its last pixel - in guard mode
-       at the upper and at the lower end: a routine that reads or writes a word where the format has a byte or
-       three touches the PROT_NONE page"""
+_TABLES = {}
+
+
+def library_tables(wd):
+    """every fast-path table entry of the running library, over every implementation of every chain in CONFIGS
+       (the Tables event of drv_dispatch), as dicts op / sf / mf / df ([hi16, lo16]) / sfl / mfl / dfl (bit lists)"""
     import json
     import dispatch
+    if wd in _TABLES:
+        return _TABLES[wd]
     exe, _ = vf.build_driver("drv_dispatch", "plain", cflags=["-pthread"])
-    keys = set()
+    out = []
     for ci, dis in enumerate(CONFIGS):
         empty = os.path.join(wd, "empty.script")
         open(empty, "w").write("")
@@ -161,9 +168,22 @@ def tight_table_requests(rng, wd):
         for line in open(tr):
             if line.startswith('{"e":"Tables"'):
                 for imp in json.loads(line)["imps"]:
-                    for e in imp:
-                        if e["op"] < 0x3f:
-                            keys.add((e["op"], tuple(e["sf"]), tuple(e["mf"]), tuple(e["df"])))
+                    out += imp
+    _TABLES[wd] = out
+    return out
+
+
+def tight_table_requests(rng, wd):
+    """One group of requests per fast-path table entry of the running library (every implementation, every chain):
+       operator and formats of the entry, solid source / solid mask where the entry asks for one (1x1 repeating
+       images), images whose rows are contiguous and end exactly at the end of their storage (widths for which
+       width x bpp is a whole number of words), the request covering the image up to its last pixel - in guard mode
+       at the upper and at the lower end: a routine that reads or writes a word where the format has a byte or
+       three touches the PROT_NONE page"""
+    keys = set()
+    for e in library_tables(wd):
+        if e["op"] < 0x3f:
+            keys.add((e["op"], tuple(e["sf"]), tuple(e["mf"]), tuple(e["df"])))
     code = lambda hl: (hl[0] << 16) | hl[1]
     solid = 1 << 16
     known = set(F.values())
@@ -191,6 +211,257 @@ def tight_table_requests(rng, wd):
                                                                             rng.randrange(1, 2 ** 31)]
                     out.append("C %d %s" % (len(f), " ".join(str(int(v)) for v in f)))
     return out
+
+
+# ---- very wide / very high images -------------------------------------------------------------------------------
+# The library walks sources in 16.16 fixed point: a dimension of 32768 pixels or more is not representable, 65536
+# wraps to 0.  Requests on such images must be dropped or clamped, never mis-addressed.  The images are one row high
+# (or one column wide) so that a pixel index that is off by a multiple of 65536 (or by the wrapped width) leaves the
+# storage and meets a PROT_NONE region; sizes sit on either side of each limit of the representation.
+BIG_SIZES = [32766, 32767, 32768, 40000, 65535, 65536, 65537]          # quick and thorough
+BIG_SIZES_MORE = [16384, 32765, 32769, 49152, 70000, 100000, 131072]   # thorough only
+BIG_N = 40                                                             # pixels of the request along the long axis
+BIG_PLACES = ["left", "start", "mid", "limit", "over", "end", "last", "flush", "past"]
+IDENT9 = [FX1, 0, 0, 0, FX1, 0, 0, 0, FX1]
+
+
+def _swap_axes(m):
+    return [m[4], m[3], m[5], m[1], m[0], m[2], m[7], m[6], m[8]]
+
+
+def _clamp(v, lo, hi):
+    return max(lo, min(hi, v))
+
+
+def big_place(place, size, span):
+    """first source pixel (along the long axis) of a request that reads `span` source pixels"""
+    return {"left": -(span // 4) - 1, "start": 2, "mid": 16000,
+            "limit": 32766 - span - 2,            # ends just below the largest representable coordinate
+            "over": 32768 - span // 2,            # crosses it: cannot be represented, must be dropped or clamped
+            "end": size - (span * 3) // 4,        # straddles the far edge of the image
+            "last": size - span - 1,              # inside, at the far end
+            "flush": size - span,                 # the last sample is the last pixel of the image (cover flags may be raised)
+            "past": size - span + 1}[place]       # ... one pixel beyond it (they may not)
+
+
+def big_geometry(tclass, place, size, k):
+    """Transform and request offsets for a one-row image `size` pixels wide (the caller exchanges the axes for a
+       one-column image): destination pixel i along the request samples near source pixel p0 + scale * i.
+       Returns (matrix, sx, sy, along_y): along_y = the destination runs along y (rotations by 90 / 270 degrees)."""
+    n = BIG_N
+    frac = [0, FX1 // 2, 1, FX1 - 1][k % 4]
+    m = list(IDENT9)
+    sx = sy = 0
+    along_y = False
+    scale = {"up": FX1 // 2, "down": [2 * FX1, 3 * FX1 // 2][k % 2], "down100": 100 * FX1,
+             "near1": [FX1 + 1, FX1 - 1][k % 2], "flip": -FX1, "rot180": -FX1}.get(tclass, FX1)
+    span = max(1, n * abs(scale) // FX1)
+    p0 = big_place(place, size, span)
+
+    def offset(p, s):
+        # p * 1.0 ~ s * sx + m02: through the request offset, through the translation of the matrix, or (when
+        # neither can hold it) through the largest request offset there is
+        q = (p * FX1) // s
+        if (k // 4) % 2 == 0 and abs(q) <= 32000:
+            return q, frac
+        if -32768 <= p <= 32766:
+            return 0, p * FX1 + frac
+        return _clamp(q, -32700, 32700), frac
+
+    if tclass == "id":
+        sx = _clamp(p0, -32700, 32700)
+    elif tclass == "trans":
+        m[2], sx = 3 * FX1, _clamp(p0 - 3, -32700, 32700)
+    elif tclass == "frac":
+        m[2], sx = [FX1 // 2, 1, FX1 - 1, -FX1 // 2][k % 4], _clamp(p0, -32700, 32700)
+    elif tclass in ("up", "down", "down100", "near1"):
+        sx, m[2] = offset(p0, scale)
+        m[0] = scale
+        if tclass != "down100" and (k // 2) % 2:
+            m[4] = scale
+    elif tclass == "flip":
+        sx, m[2] = offset(p0 + n, -FX1)
+        m[0] = -FX1
+    elif tclass == "rot180":
+        sx, m[2] = offset(p0 + n, -FX1)
+        m[0], m[4], m[5] = -FX1, -FX1, FX1
+    elif tclass == "rot90":
+        sy, t = offset(p0 + n, -FX1)
+        m = [0, -FX1, t, FX1, 0, 0, 0, 0, FX1]
+        along_y = True
+    elif tclass == "rot270":
+        sy, t = offset(p0, FX1)
+        m = [0, FX1, t, -FX1, 0, FX1, 0, 0, FX1]
+        along_y = True
+    elif tclass == "shear":
+        sx, m[2] = offset(p0, FX1)
+        m[1] = [FX1 // 4, -FX1 // 2][k % 2]
+    elif tclass == "proj":
+        sx, m[2] = offset(p0, FX1)
+        m[6] = [1, -1, FX1 // 1024][k % 3]
+    else:
+        raise ValueError(tclass)
+    return m, sx, sy, along_y
+
+
+def big_request(rng, role, size, high, op, sfmt, mkind, dfmt, rep, filt, tclass, place, mode, k):
+    """one composite request whose source (role 's') or mask (role 'm') is `size` x 1 (1 x `size` if high)"""
+    n = BIG_N
+    m, sx, sy, along_y = big_geometry(tclass, place, size, k)
+    dw, dh = (2, n) if along_y else (n, 1 + (k // 8) % 2)
+    bw, bh = size, 1
+    if high:
+        m, sx, sy, dw, dh, bw, bh = _swap_axes(m), sy, sx, dh, dw, bh, bw
+    neg = (k // 16) % 2
+    if role == "s":
+        if mkind == "solid":
+            mfmt, mw, mh = F["a8"], 1, 1
+        elif mkind:
+            mfmt, mw, mh = mkind, dw, dh
+        else:
+            mfmt, mw, mh = 0, 1, 1
+        f = [mode, op, sfmt, bw, bh, neg, rep, filt] + m + [mfmt, mw, mh, dfmt, dw, dh, (k // 32) % 2,
+                                                            sx, sy, 0, 0, 0, 0, dw, dh, rng.randrange(1, 2 ** 31)]
+    else:
+        # the geometry attributes go to the mask (mode + 8); the source is a plain image of the destination's size
+        f = [mode | 8, op, sfmt, dw, dh, neg, rep, filt] + m + [mkind, bw, bh, dfmt, dw, dh, (k // 32) % 2,
+                                                                0, 0, sx, sy, 0, 0, dw, dh, rng.randrange(1, 2 ** 31)]
+    return "C %d %s" % (len(f), " ".join(str(int(v)) for v in f))
+
+
+def transformed_source_routes(wd):
+    """(op, source format, mask kind, destination format, filter, transform class, repeat) of every fast-path table
+       entry of the running library that takes a transformed BITS source: what the entry's source flags demand"""
+    code = lambda hl: (hl[0] << 16) | hl[1]
+    solid = 1 << 16
+    known = set(F.values())
+    routes = set()
+    for e in library_tables(wd):
+        sfl = set(e["sfl"])
+        sfc, mfc, dfc = code(e["sf"]), code(e["mf"]), code(e["df"])
+        if e["op"] >= 0x3f or 0 in sfl or sfc not in known or dfc not in known or (mfc not in (0, solid) and mfc not in known):
+            continue
+        filt = 4 if 19 in sfl else 3
+        tclass = "rot90" if 20 in sfl else "rot180" if 21 in sfl else "rot270" if 22 in sfl else "scale"
+        for rep, bit in ((0, 15), (1, 14), (2, 3), (3, 4)):
+            if bit not in sfl:
+                routes.add((e["op"], sfc, "solid" if mfc == solid else mfc, dfc, filt, tclass, rep))
+    return sorted(routes, key=str)
+
+
+def big_image_requests(rng, wd, quick):
+    """Systematic suite over very wide / very high images (see BIG_SIZES):
+       A  per fast-path table entry that takes a transformed source (C, MMX, SSE2, SSSE3 tables of every chain): the
+          entry's operator / formats / filter / repeat / transform class x sizes x both orientations, guard mode;
+       B  general path and scanline fetchers: formats incl. a1, a8, wide x all repeats x NEAREST / BILINEAR /
+          CONVOLUTION x transforms (identity, integer and fractional translation, scale up / down / by 100, flip,
+          rotations, shear, projective) x sizes, accessor and guard modes;
+       C  the same image as the MASK of the request (transform, filter and repeat set on the mask);
+       D  very wide / very high DESTINATIONS: composites, fill_boxes / fill_rectangles and trapezoids at the near
+          end, across 32767 / 32768 and at the far end.
+       Scale factor, placement of the request along the image, observation mode, stride sign and the second row of
+       the destination rotate with a counter (every value meets every size); the thorough tier takes every placement
+       of part A, more sizes and every format pair of parts B - D."""
+    out = []
+    sizes = BIG_SIZES if quick else BIG_SIZES + BIG_SIZES_MORE
+    places = BIG_PLACES
+    k = 0
+    stats = {}
+
+    # A
+    routes = transformed_source_routes(wd)
+    stats["A_routes"] = len(routes)
+    for (op, sfc, mk, dfc, filt, tclass, rep) in routes:
+        for size in sizes:
+            for high in (0, 1):
+                for place in ([places[k % len(places)]] if quick else places if size in BIG_SIZES else places[k % 3::3]):
+                    tc = tclass if tclass != "scale" else ["down", "up", "near1", "down100"][(k // 2) % 4]
+                    out.append(big_request(rng, "s", size, high, op, sfc, mk, dfc, rep, filt, tc, place, 1 + k % 2, k))
+                    k += 1
+    stats["A"] = len(out)
+
+    # B
+    pairs = [(1, F["a8"], 0, F["a8"]), (12, F["a8"], F["a8"], F["a8"]), (3, F["r5g6b5"], 0, F["a8r8g8b8"]),
+             (1, F["a1"], 0, F["a1"]), (3, F["a8r8g8b8"], "solid", F["r5g6b5"]), (1, F["x2r10g10b10"], 0, F["a8r8g8b8"]),
+             (3, F["a8r8g8b8"], 0, F["a8r8g8b8"]), (0x13, F["a8r8g8b8"], 0, F["x8r8g8b8"])]
+    tclasses = ["id", "trans", "frac", "up", "down", "down100", "near1", "flip", "rot90", "rot180", "rot270", "shear", "proj"]
+    n0 = len(out)
+    for rep in (0, 1, 2, 3):
+        for filt in (3, 4, 5):
+            for tclass in tclasses:
+                for size in sizes:
+                    for pi in ([k % len(pairs)] if quick else range(len(pairs))):
+                        (op, sfc, mk, dfc) = pairs[pi]
+                        for place in [places[(k // 3) % len(places)]]:
+                            out.append(big_request(rng, "s", size, (k // 2) % 2, op, sfc, mk, dfc, rep, filt, tclass, place,
+                                                   [0, 1, 0, 2][k % 4], k))
+                            k += 1
+    stats["B"] = len(out) - n0
+
+    # C
+    mpairs = [(3, F["a8r8g8b8"], F["a8"], F["a8r8g8b8"]), (12, F["a8"], F["a8"], F["a8"]),
+              (3, F["a8r8g8b8"], F["a8r8g8b8"], F["r5g6b5"]), (1, F["x8r8g8b8"], F["a1"], F["a8r8g8b8"])]
+    n0 = len(out)
+    for rep in (0, 1, 2, 3):
+        for filt in (3, 4):
+            for tclass in ("id", "trans", "up", "down", "flip", "rot90"):
+                for size in sizes:
+                    for pi in ([k % len(mpairs)] if quick else range(len(mpairs))):
+                        (op, sfc, mk, dfc) = mpairs[pi]
+                        for place in [places[(k // 3) % len(places)]]:
+                            out.append(big_request(rng, "m", size, (k // 2) % 2, op, sfc, mk, dfc, rep, filt, tclass, place,
+                                                   [1, 0, 2, 0][k % 4], k))
+                            k += 1
+    stats["C"] = len(out) - n0
+
+    # D
+    n0 = len(out)
+    for size in sizes:
+        for high in (0, 1):
+            ends = [0, -3, 32760, 32767 - 4, 32768 - 4, size - 8, size - 3, 65536 - 4]
+            # composites of a small / a solid source onto the big destination, and one across its whole length
+            dfmts = [F["a8r8g8b8"], F["r5g6b5"], F["a8"], F["a1"]]
+            for dfmt in ([dfmts[k % 4]] if quick else dfmts):
+                for pos in ends + [None]:
+                    op = [1, 3, 12][k % 3]
+                    solid = k % 2
+                    sfmt = F["a8r8g8b8"] if dfmt != F["a8"] or op != 12 else F["a8"]
+                    ln = size if pos is None else 8
+                    (sw, sh) = (1, 1) if solid else ((8, 1) if not high else (1, 8))
+                    srep = 1 if solid or pos is None else 0
+                    d = (size, 1) if not high else (1, size)
+                    at = (pos or 0, 0) if not high else (0, pos or 0)
+                    wh = (ln, 1) if not high else (1, ln)
+                    f = [[1, 2, 0][k % 3], op, sfmt, sw, sh, 0, srep, 3] + IDENT9 + \
+                        [0, 1, 1, dfmt, d[0], d[1], (k // 4) % 2, 0, 0, 0, 0, at[0], at[1], wh[0], wh[1], rng.randrange(1, 2 ** 31)]
+                    out.append("C %d %s" % (len(f), " ".join(str(int(v)) for v in f)))
+                    k += 1
+            # fills
+            for dfmt in ([dfmts[(k + 1) % 4]] if quick else dfmts):
+                for pos in ends + [None]:
+                    lo, hi = (0, size) if pos is None else (pos, pos + 8)
+                    bx = [lo, 0, hi, 1] if not high else [0, lo, 1, hi]
+                    d = (size, 1) if not high else (1, size)
+                    (op, alpha) = [(1, 0xffff), (3, 0xffff), (3, 0x8000), (12, 0xffff)][k % 4]
+                    f = [[1, 2, 0][k % 3], dfmt, d[0], d[1], (k // 4) % 2, op, (k // 2) % 2, 0, 1] + bx + [alpha, rng.randrange(1, 2 ** 31)]
+                    out.append("B %d %s" % (len(f), " ".join(str(int(v)) for v in f)))
+                    k += 1
+            # trapezoids (coordinates reach 32767.99 only): at the near end, across the whole representable range, at
+            # the far representable end
+            afmts = [F["a8"], F["a1"], fmt4()]
+            for dfmt in ([afmts[k % 3]] if quick else afmts):
+                for (a, b) in ((0, 8 * FX1), (-3 * FX1, 2 ** 31 - 1), (32760 * FX1, 2 ** 31 - 1), (-(2 ** 31), 2 ** 31 - 1),
+                               ((min(size, 32767) - 6) * FX1, min(size, 32767) * FX1 + 3)):
+                    d = (size, 1) if not high else (1, size)
+                    if not high:
+                        vals = [0, FX1, a, 0, a, FX1, b, 0, b, FX1]
+                    else:
+                        vals = [a, b, 0, a, 0, b, FX1, a, FX1, b]
+                    f = [[1, 2, 0][k % 3], dfmt, d[0], d[1], 1] + vals + [0, 0, rng.randrange(1, 2 ** 31), k % 4]
+                    out.append("T %d %s" % (len(f), " ".join(str(int(v)) for v in f)))
+                    k += 1
+    stats["D"] = len(out) - n0
+    return out, stats
 
 
 def gen(rng, n):
@@ -289,6 +560,11 @@ def run(prop, args):
     rn = vf.tlc_mc(os.path.join(base, "BoundsMC.tla"), cfg=os.path.join(base, "BoundsMC_neg.cfg"), workers=4,
                    expect_violation=True)
     chk.add_tlc(rn, "negative config (<= width; must be rejected)")
+    rw = vf.tlc_mc(os.path.join(base, "BoundsMC.tla"), cfg=os.path.join(base, "BoundsMC_negw.cfg"), workers=4,
+                   expect_violation=True)
+    chk.add_tlc(rw, "negative config (size refusal limited to repeating images; must be rejected)")
+    if "WidthSound" not in rw.out:
+        raise vf.Infra("BoundsMC_negw rejected for another reason than WidthSound:\n" + rw.out[-1500:])
 
     exe, px = vf.build_driver("drv_bounds", "plain")
     chk.extra["build"] = px["hash"]
@@ -311,6 +587,10 @@ def run(prop, args):
     tight = tight_table_requests(rng, wd)
     reqs += tight if (not quick or len(tight) <= 1500) else rng.sample(tight, 1500)
     chk.extra["tight_fast_path_table_requests"] = len(tight)
+    big, bigstats = big_image_requests(rng, wd, quick)
+    reqs += big
+    chk.extra["big_image_requests"] = len(big)
+    chk.extra["big_image_suite"] = bigstats
     chk.sample({"request_script_lines": reqs[:2]})
     configs = CONFIGS[:3] if quick else CONFIGS
     traces = []
@@ -342,6 +622,9 @@ def run(prop, args):
     chk.assumptions += ["accesses of the general path are observed through pixman's accessor callbacks; fast paths "
                         "cannot run with accessors and are observed only through the guard regions (an access inside "
                         "the storage but outside the rows a request may read is not detected there)",
-                        "the cover flags are evaluated at full resolution only for affine matrices with entries <= 16.0 "
-                        "and extents within +-500"]
+                        "the cover flags (source and mask) are evaluated at full resolution for affine matrices with "
+                        "entries <= 16.0 and extents / request offsets within the 16-bit range (split arithmetic, "
+                        "BoundsMC!SplitExact); a pixel index that is wrong but stays inside the rows of a very wide image "
+                        "is not detected in guard mode (the images of the big-image suite are one row / one column so "
+                        "that an error of the wrapped width or of 65536 pixels leaves the storage)"]
     return chk.finish()
